@@ -316,9 +316,23 @@ func init() {
 			}
 			genHistory(r, c, histOpts{simple: true, extended: true, copy: true, errs: true, unknown: true, oversized: r.Chance(1, 3), stray: true, params: true, binary: true, unknownNames: true, closes: true, multi: true, terminate: true, tails: true, maxUnits: 6})
 			cc := &c.Conns[0]
-			if r.Chance(1, 6) {
-				// SSLRequest declined, then the plaintext session
-				cc.Steps = append([]Step{{Msgs: []pgwire.FMsg{{K: "ssl"}}}}, cc.Steps...)
+			if r.Chance(1, 5) {
+				// SSLRequest declined, then the plaintext session - either waiting for
+				// the 'N' or with the startup packet pipelined right behind the request
+				if r.Bool() {
+					cc.Steps = append([]Step{{Msgs: []pgwire.FMsg{{K: "ssl"}}}}, cc.Steps...)
+				} else {
+					cc.Steps[0].Msgs = append([]pgwire.FMsg{{K: "ssl"}}, cc.Steps[0].Msgs...)
+				}
+			}
+			if r.Chance(1, 3) {
+				// the client does not wait for any reply: everything is pipelined into
+				// one flight, so read-ahead crosses every phase boundary
+				var all []pgwire.FMsg
+				for _, st := range cc.Steps {
+					all = append(all, st.Msgs...)
+				}
+				cc.Steps = []Step{{Msgs: all}}
 			}
 			if r.Chance(1, 4) {
 				// a truncated or mis-sized final message
